@@ -26,13 +26,19 @@ func c15Global(mod string, defGlobal bool) bool {
 	return defGlobal
 }
 
+// names of the explicit text / movement / mart statements: plain ones, and ones shaped like the labels the
+// compiler generates for other scripts (no script Q or Intro exists, so nothing clashes)
+var c15NameSets = [][3]string{{"T", "M", "Mt"}, {"Intro_Text_0", "Intro_Movement_0", "Q_Text_7"}, {"Q_1", "Q_Movement_12", "Map_ON_RESUME"}}
+
 func runC15(tier string) int {
 	r := harness.NewRun("C15", "exploration", tier, budget(tier, 50*time.Second, 10*time.Minute))
 	generated := regexp.MustCompile(`^(S|S2|Map_ON_LOAD|Map_ON_FRAME_1|Map_ON_TRANSITION)_(\d+|Text_\d+|Movement_\d+)$`)
 	// 5 statement kinds x 3 modifiers, 3 label modifiers, 2 statement orders, optimize on/off
-	total := uint64(243 * 3 * 2 * 2)
+	total := uint64(243 * 3 * 2 * 2 * len(c15NameSets))
 	r.Parallel(total, func(w int, idx uint64) {
 		x := int(idx)
+		ns := c15NameSets[x%len(c15NameSets)]
+		x /= len(c15NameSets)
 		opt := x%2 == 0
 		x /= 2
 		order := x % 2
@@ -46,9 +52,9 @@ func runC15(tier string) int {
 		}
 		pieces := []string{
 			"script" + m[0] + " S {\n\tL1" + lm + ":\n\tif (flag(A)) {\n\t\tmsgbox(\"hi\")\n\t}\n\twhile (var(V) < 2) {\n\t\tapplymovement(1, moves(u d))\n\t\tL2:\n\t}\n\tswitch (var(W)) {\n\t\tcase 1:\n\t\t\tx\n\t\tdefault:\n\t\t\ty\n\t}\n}\n",
-			"text" + m[1] + " T {\n\t\"hello\"\n}\n",
-			"movement" + m[2] + " M {\n\tu\n\td\n}\n",
-			"mart" + m[3] + " Mt {\n\tI1\n}\n",
+			"text" + m[1] + " " + ns[0] + " {\n\t\"hello\"\n}\n",
+			"movement" + m[2] + " " + ns[1] + " {\n\tu\n\td\n}\n",
+			"mart" + m[3] + " " + ns[2] + " {\n\tI1\n}\n",
 			"mapscripts" + m[4] + " Map {\n\tON_RESUME: S\n\tON_LOAD {\n\t\tif (flag(B)) {\n\t\t\tmsgbox(\"map\")\n\t\t}\n\t\tL3" + lm + ":\n\t}\n\tON_FRAME [\n\t\tVAR_A, 0: S\n\t\tVAR_A, 1 {\n\t\t\tmsgbox(\"tab\")\n\t\t\tif (flag(C)) {\n\t\t\t\tz\n\t\t\t}\n\t\t}\n\t]\n\tON_TRANSITION {\n\t\tapplymovement(2, moves(l r))\n\t}\n}\n",
 			"script S2 {\n\tmsgbox(\"s2a\")\n\tmsgbox(\"s2b\")\n}\n",
 		}
@@ -70,7 +76,7 @@ func runC15(tier string) int {
 			return
 		}
 		want := map[string]bool{ // name -> exported?
-			"S": c15Global(m[0], true), "T": c15Global(m[1], true), "M": c15Global(m[2], false), "Mt": c15Global(m[3], false), "Map": c15Global(m[4], true),
+			"S": c15Global(m[0], true), ns[0]: c15Global(m[1], true), ns[1]: c15Global(m[2], false), ns[2]: c15Global(m[3], false), "Map": c15Global(m[4], true),
 			"L1": c15Global(lm, false), "L2": false, "L3": c15Global(lm, false), "S2": true,
 			"Map_ON_LOAD": false, "Map_ON_FRAME": false, "Map_ON_FRAME_1": false, "Map_ON_TRANSITION": false,
 		}
@@ -124,5 +130,5 @@ func runC15(tier string) int {
 	})
 	r.Assume("documented defaults: script, text, mapscripts global; movement, mart local; labels inside scripts local; every generated label local")
 	return r.Finish(r.Get("evaluations"), r.Get("nontrivial"),
-		"the full finite product {script, text, movement, mart, mapscripts} x {no modifier, (global), (local)} (3^5) x in-script label modifier (3) x 2 statement orders x optimize on/off; the file forces every generated label kind (sub-labels of if/while/switch, hoisted text and movement, inline map script, table, table inline script and their hoisted data); every label definition of the output is classified by the naming scheme and must have the expected scope; non-trivial = at least one explicit modifier")
+		"the full finite product {script, text, movement, mart, mapscripts} x {no modifier, (global), (local)} (3^5) x in-script label modifier (3) x 2 statement orders x optimize on/off x 3 sets of names for the explicit data statements (plain, and shaped like generated hoisted / sub-label / map-script names of scripts that do not exist); the file forces every generated label kind (sub-labels of if/while/switch, hoisted text and movement, inline map script, table, table inline script and their hoisted data); every label definition of the output is classified by the naming scheme and must have the expected scope; non-trivial = at least one explicit modifier")
 }
